@@ -210,3 +210,142 @@ def trace_functions_for(jobs):
     finally:
         sys.stdout = real
     return simenv.repo_functions_seen()
+
+
+# =====================================================================================================
+# M2 families (Source / Machine / Sink around Buffer edges)
+
+
+def fan_cfgs(tier):
+    q = tier == "quick"
+    n3 = 3 if q else 4
+    C = {}
+    C["line-w1"] = dict(n_src=1, n_out=1, n_items=n3, w=1)
+    C["line-w2-per-item"] = dict(n_src=1, n_out=1, n_items=n3, w=2, per_item_pd=True, out_cap=1)
+    C["line-indelay"] = dict(n_src=1, n_out=1, n_items=3, w=1, in_delay="sym")
+    C["line-gen"] = dict(n_src=1, n_out=1, n_items=3, w=1, per_item_pd=True, delay_kind="generator")
+    C["line-const"] = dict(n_src=1, n_out=1, n_items=3, w=2, delay_kind="const")
+    C["fanin-fa"] = dict(n_src=2, n_out=1, n_items=2, w=1)
+    C["fanin-fa-w2-tie"] = dict(n_src=2, n_out=1, n_items=2, w=2, same_iat=True, per_item_pd=True)
+    C["fanout-fa"] = dict(n_src=1, n_out=2, n_items=n3, w=1, out_cap=1)
+    C["fanout-w2-tie"] = dict(n_src=2, n_out=2, n_items=1 if q else 2, w=2, out_cap=1, same_iat=True)
+    C["nb-machine-fa"] = dict(n_src=1, n_out=2, n_items=n3, w=1, out_cap=1, blocking=False)
+    C["nb-machine-rr"] = dict(n_src=1, n_out=2, n_items=n3, w=1, out_cap=1, blocking=False, out_sel="ROUND_ROBIN")
+    C["nb-machine-w2"] = dict(n_src=2, n_out=1, n_items=2, w=2, out_cap=1, blocking=False, same_iat=True)
+    C["nb-source-idx"] = dict(n_src=1, n_out=1, n_items=4, w=1, in_cap=1, src_blocking=False)
+    C["nb-source-fa"] = dict(n_src=1, n_out=1, n_items=4, w=1, in_cap=1, src_blocking=False, src_out_sel="FIRST_AVAILABLE")
+    C["rr-in"] = dict(n_src=2, n_out=1, n_items=2, w=1, in_sel="ROUND_ROBIN")
+    C["rr-out"] = dict(n_src=1, n_out=2, n_items=n3, w=1, out_sel="ROUND_ROBIN", out_cap=1)
+    C["idx-out"] = dict(n_src=1, n_out=2, n_items=3, w=1, out_sel=1, out_cap=1)
+    C["callable-in"] = dict(n_src=2, n_out=1, n_items=2, w=1, in_sel="callable", sym=("pd",))
+    C["generator-out"] = dict(n_src=1, n_out=2, n_items=3, w=1, out_sel="generator", out_cap=1, sym=("pd",))
+    if not q:
+        C["fanout3-w3"] = dict(n_src=1, n_out=3, n_items=4, w=3, out_cap=1, per_item_pd=True)
+        C["fanin-fa-3items"] = dict(n_src=2, n_out=1, n_items=3, w=1)
+        C["fanin-fa-w2"] = dict(n_src=2, n_out=2, n_items=2, w=2, per_item_pd=True, out_cap=1)
+    return C
+
+
+def fan_jobs(pid, tier, names=None, extra_kw=None, budget=None):
+    C = fan_cfgs(tier)
+    jobs = []
+    for name, cfg in C.items():
+        if names is not None and name not in names:
+            continue
+        kw = dict(cfg)
+        kw.update(extra_kw or {})
+        kw["props"] = (pid,)
+        jobs.append({"name": f"M2/fan/{name}", "spec": ("vfy.m2s", "fan", kw), "budget_s": budget or (15 if tier == "quick" else 150),
+                     "bounds": str(cfg), "validate_every": 10})
+    return jobs
+
+
+M2_EXPL = ("Bounded symbolic simulation: a small factory is built from the real Source/Machine/Sink/Buffer (and other) classes on the real SimPy kernel; "
+           "inter-arrival, processing and buffer delays (and the end time) are z3 reals, so every ordering of same-instant and nearby events that some "
+           "delay vector can produce is explored (heapq and the stores compare symbolic times through the solver). The store inside every edge is wrapped on "
+           "the instance so that every reserve/put/get/cancel is logged with the calling node; ")
+
+PROPS["C03"] = {
+    "explanation": M2_EXPL + "after every instant each item identity is in exactly one place according to the ledger, the ledger agrees with the real contents of every "
+                   "edge and node (item_in_process / worker item_to_put), generated = at sources + in edges + in nodes + discarded + received, and with finite "
+                   "input under fair policies everything is received or counted as discarded at quiescence. The C01 capacity monitor runs on every edge.",
+    "jobs": lambda tier: fan_jobs("C03", tier),
+    "required_witnesses": ["C03:checked", "C03:quiescence-checked"],
+    "nontrivial_witnesses": ["complete"],
+    "twin": lambda tier: ("vfy.m2s", "fan", dict(props=("C03",), n_src=1, n_out=1, n_items=2, twin=True)),
+    "bounds": {"quick": "19 topologies/modes around one machine, <=4 items per source, <=2 sources, <=2 sinks, work_capacity<=2, 2-4 symbolic delays",
+               "thorough": "22 configurations, <=4 items per source, work_capacity<=3, 3 out-edges"},
+    "outside": "cyclic graphs, more than one machine in series, RANDOM policy",
+}
+
+PROPS["C08"] = {
+    "explanation": M2_EXPL + "per machine: items held <= work_capacity after every event; the processing-delay source (constant, callable, generator; per-item symbolic values, "
+                   "zero included) is consulted exactly once per pulled item in the pull instant; t_out >= t_pull + d for every item (solver query, not sampling); at the end of "
+                   "every instant no finished item is held while a permitted out-edge has room.",
+    "jobs": lambda tier: fan_jobs("C08", tier),
+    "required_witnesses": ["C08:residence-checked", "C08:finished-item-held"],
+    "nontrivial_witnesses": ["complete"],
+    "twin": lambda tier: ("vfy.m2s", "fan", dict(props=("C08",), n_src=1, n_out=1, n_items=2, twin=True)),
+    "bounds": {"quick": "as C03", "thorough": "as C03"},
+    "outside": "Splitter/Combiner residence is checked in the PK scenarios (C16 jobs)",
+}
+
+PROPS["C09"] = {
+    "explanation": M2_EXPL + "blocking nodes: discard counters stay 0; non-blocking nodes: every drop happens at a moment when no permitted out-edge has room (ledger view), raises the "
+                   "counter by exactly one, no finished item is held across an instant, and a non-blocking source keeps its cadence (k-th item at g1+..+gk).",
+    "jobs": lambda tier: fan_jobs("C09", tier, names=["line-w1", "fanout-fa", "nb-machine-fa", "nb-machine-rr", "nb-machine-w2", "nb-source-idx", "nb-source-fa", "rr-out", "idx-out", "fanout-w2-tie"]),
+    "required_witnesses": ["C09:discard-seen", "C09:nonblocking-source-checked"],
+    "nontrivial_witnesses": ["complete"],
+    "twin": lambda tier: ("vfy.m2s", "fan", dict(props=("C09",), n_src=1, n_out=1, n_items=2, blocking=False, twin=True)),
+    "bounds": {"quick": "10 (node, mode, policy) configurations with Buffer out-edges", "thorough": "same with 4 items"},
+    "outside": "conveyor out-edges in non-blocking mode (known finding, C20)",
+}
+
+PROPS["C10"] = {
+    "explanation": M2_EXPL + "token-based observer at the end of every instant: a node with a free worker has a retrieval request on every permitted in-edge, none of them granted-but-unused, none "
+                   "pending while an item is available; a blocking node with a finished item requests space on every permitted out-edge and none has room; no node leaves more than one request per "
+                   "edge or a granted reservation behind; at quiescence nothing is stranded.",
+    "jobs": lambda tier: fan_jobs("C10", tier),
+    "required_witnesses": ["C10:input-side-checked", "C10:output-side-checked", "C10:quiescence-checked"],
+    "nontrivial_witnesses": ["complete"],
+    "twin": lambda tier: ("vfy.m2s", "fan", dict(props=("C10",), n_src=2, n_out=1, n_items=1, twin=True)),
+    "bounds": {"quick": "as C03", "thorough": "as C03"},
+    "outside": "as C03",
+}
+
+PROPS["C15"] = {
+    "explanation": M2_EXPL + "the edge on which every item is pulled/pushed is compared with the policy's answers (ROUND_ROBIN k mod n, constant index, user callable / generator whose answers "
+                   "the solver chooses), FIRST_AVAILABLE must not cancel a granted request on a lower-index edge in the round in which it commits, and the recorded selection history must equal the routing.",
+    "jobs": lambda tier: fan_jobs("C15", tier, names=["fanin-fa", "fanin-fa-w2-tie", "fanout-fa", "fanout-w2-tie", "nb-machine-fa", "nb-machine-rr", "rr-in", "rr-out", "idx-out", "callable-in", "generator-out", "fanout3-w3"]) + [
+        {"name": "M0/selectors", "spec": ("vfy.m0", "selector_scenario", dict(nmax=4 if tier == "quick" else 6)), "budget_s": 20 if tier == "quick" else 120, "bounds": "RoundRobin_edge_selector and _get_*_edge_index of all node classes with out-of-range answers"}],
+    "required_witnesses": ["C15:routing-checked", "C15:history-checked", "C15:range-checked"],
+    "nontrivial_witnesses": ["complete"],
+    "twin": lambda tier: ("vfy.m2s", "fan", dict(props=("C15",), n_src=2, n_out=1, n_items=1, twin=True)),
+    "bounds": {"quick": "n<=2 in/out edges (3 thorough), <=4 items, every policy kind", "thorough": ""},
+    "outside": "RANDOM policy (any routing is legal)",
+}
+
+PROPS["C17"] = {
+    "explanation": M2_EXPL + "the run ends at a symbolic time T (URGENT stop event exactly as env.run(until=T)); after update_final_state_time(T) all totals are >= 0, the Machine's two "
+                   "state groups and its worker-occupancy histogram each equal T exactly (linear real arithmetic), SETUP = min(T, setup), and every class total equals the duration measured "
+                   "independently from the ledger by a sweep over processing [t_pull, t_pull+d) and blocked [t_pull+d, t_out) intervals.",
+    "jobs": lambda tier: fan_jobs("C17", tier, names=["line-w1", "line-w2-per-item", "fanin-fa", "fanout-fa", "nb-machine-fa", "nb-source-idx", "line-const", "fanout3-w3"], extra_kw={"until": "sym"}) + fan_jobs(
+        "C17", tier, names=["line-w1"], extra_kw={"until": "sym", "setup": 2}),
+    "required_witnesses": ["C17:finalised@Machine", "C17:finalised@Source", "C17:finalised@Sink"],
+    "nontrivial_witnesses": ["complete"],
+    "twin": lambda tier: ("vfy.m2s", "fan", dict(props=("C17",), n_src=1, n_out=1, n_items=1, until="sym", twin=True)),
+    "bounds": {"quick": "T in [0.25, 8], <=4 items, work_capacity<=2", "thorough": "work_capacity<=3"},
+    "outside": "",
+}
+
+PROPS["C18"] = {
+    "explanation": M2_EXPL + "after finalisation at symbolic T: generated/processed/discarded/received counters equal the ledger counts; every edge's time-averaged occupancy is the opaque quotient "
+                   "num/den with den == T and num == the integral of ledger occupancy (sum over items of residence, linear in the symbolic times); total_cycle_time equals the sum of reception - creation; "
+                   "timestamps are non-decreasing along each route.",
+    "jobs": lambda tier: fan_jobs("C18", tier, names=["line-w1", "line-w2-per-item", "line-indelay", "fanin-fa", "fanout-fa", "nb-machine-fa", "nb-source-idx", "idx-out", "rr-out"], extra_kw={"until": "sym"}),
+    "required_witnesses": ["C18:counters-checked", "C18:cycle-time-checked", "C18:time-average-checked"],
+    "nontrivial_witnesses": ["complete"],
+    "twin": lambda tier: ("vfy.m2s", "fan", dict(props=("C18",), n_src=1, n_out=1, n_items=1, until="sym", twin=True)),
+    "bounds": {"quick": "as C17", "thorough": "as C17"},
+    "outside": "weighted_sum/now is kept as an opaque quotient: numerator and denominator are compared separately",
+}
